@@ -417,3 +417,10 @@ fn encode_loop3() {
     kani::cover!(nframes == 3 && i0 == i2 && i0 != i1, "first and last frame with equal content");
     std::mem::forget(dst);
 }
+
+/// COMPLETE: the only command name is the five octets "READY" (discharges the contract the Verus unit
+/// assumes for ZmqCommandName::as_str)
+#[kani::proof]
+fn cmdname_as_str() {
+    assert!(crate::codec::ZmqCommandName::READY.as_str().as_bytes() == b"READY");
+}
